@@ -30,8 +30,9 @@ def _alarm(signum, frame):
 def guarded(fn, secs=10):
     """run fn() with a wall-clock budget; returns (outcome, value)"""
     import claripy
-    signal.signal(signal.SIGALRM, _alarm)
-    signal.alarm(secs)
+    # CPU time of this process, not wall-clock time: a loaded machine must not turn a fast construction into a "hang"
+    signal.signal(signal.SIGPROF, _alarm)
+    signal.setitimer(signal.ITIMER_PROF, secs)
     try:
         return "ok", fn()
     except claripy.errors.ClaripyZeroDivisionError:
@@ -47,7 +48,7 @@ def guarded(fn, secs=10):
     except Exception as ex:  # noqa: BLE001
         return "PyError:" + type(ex).__name__, None
     finally:
-        signal.alarm(0)
+        signal.setitimer(signal.ITIMER_PROF, 0)
 
 
 _seen_nodes = set()
